@@ -59,6 +59,16 @@ def u_reseed(ctx, has_w, has_z):
     ctx.check(f"{name}/post:initial_state_is_function_of_seed", isinstance(g.rng, rngmodel.SymGenerator) and g.rng.hist.eq(h0))
     ctx.check("C16/BoxRandoms.__init__/post:data_size", g.data_size == (m if (has_w or has_z) else -1))
     ctx.check("C16/BoxRandoms.__init__/post:chunk_info", g.has_weights == has_w and g.has_redshifts == has_z)
+    # "no matter how often it has been used before" includes other generators built in the same process: a second generator with
+    # the opposite attribute set must not change this one (no state shared between instances)
+    m2 = ctx.fresh_int("num_samples_other", lo=1, size=True)
+    other_w = None if has_w else SArr.fresh(ctx, "other_weights", (m2,), "f")
+    other_z = None if has_z else SArr.fresh(ctx, "other_redshifts", (m2,), "f")
+    expect_no_exception(ctx, call(RND.BoxRandoms, ra0, ra1, d0, d1, weights=other_w, redshifts=other_z, seed=ctx.fresh_int("other_seed", lo=0)),
+                        "C16/BoxRandoms.__init__")
+    ctx.check("C16/BoxRandoms.__init__/frame:another_generator_does_not_change_this_one",
+              g.has_weights == has_w and g.has_redshifts == has_z and bool(g.data_size == (m if (has_w or has_z) else -1)) and g.rng.hist.eq(h0),
+              detail="attribute flags, sample size and random state of a generator are its own")
     # arbitrary earlier use
     n1 = ctx.fresh_int("n_before", lo=0, size=True)
     expect_no_exception(ctx, call(g, n1), "C16/BoxRandoms.__call__")
@@ -262,6 +272,14 @@ def replay_witness(unit_name, case, ob):
             del RNDr.healpy
         else:
             RNDr.healpy = old
+    # a second generator with another attribute set, built in between, must not change what the first one draws
+    g1 = RNDr.BoxRandoms(10, 30, -20, 40, weights=wsrc, redshifts=zsrc, seed=7)
+    first = g1(50)
+    RNDr.BoxRandoms(0, 5, 0, 5, seed=1)(10)
+    g1.reseed()
+    again = g1(50)
+    if first.dtype != again.dtype or not np.array_equal(first, again):
+        fails.append("a generator built in between changes what an earlier generator draws (state shared between instances)")
     # catalogs built from a generator hold exactly the requested number of points, inside the window, for 1 and 2 workers
     import os
     import shutil
